@@ -525,7 +525,8 @@ func (f *frame) appendBuiltin(c *ssa.CallCommon, st *bstate) TV {
 				}
 			}
 		}
-		if !inLoop {
+		top := f.topFrame()
+		if !inLoop && top.contract != nil && top.contract.Hints["appendcopy"] {
 			// the same copy fact triggered from reads of the source row, so that
 			// what is known about an old element carries over to a reallocated
 			// row (straight-line appends only: inside loops the extra trigger
